@@ -54,7 +54,7 @@ func c03Rules(tier string) []Rule {
 		// headroom: instance types handed to NewNodeClaim are the filtered ones when the pool has limits
 		core.Custom{ID: "C03.PROV1", Kind: "PROV", Run: func(w *core.World, id string) []core.Result {
 			return core.ArgProvenance(w, id, "(*sched.Scheduler).addToNewNodeClaim", `^call sched\.NewNodeClaim\(`, 3,
-				`^phi\(.*\.InstanceTypeOptions\|sched\.filterByRemainingResources\(.*\|sched\.filterByRemainingResources\(`, "instance types of a new NodeClaim are filtered by the pool's remaining resources")
+				`^phi\(.*\.InstanceTypeOptions\|sched\.filterByRemainingResources\(.*\.InstanceTypeOptions, .*\)\)$`, "instance types of a new NodeClaim are filtered by the pool's remaining resources")
 		}},
 		DOM{ID: "C03.DOM4", Fn: "(*sched.Scheduler).addToNewNodeClaim", Sink: `^call sched\.NewNodeClaim\(`, Gates: gates(
 			// either the pool has no limits entry, or the filter ran and left something
@@ -83,10 +83,20 @@ func c03Rules(tier string) []Rule {
 			const sm = "sched.subtractMax"
 			rs := core.InstrPresent(w, id, "PROV", sm, `^store &local<\[1\]corev1\.ResourceList>\[0\] = \$1\[.*\]\.Capacity$`, 1, "each instance type contributes its Capacity")
 			rs = append(rs, core.InstrPresent(w, id, "PROV", sm, `^call utils/resources\.MaxResources\(phi\(nil\|append\(phi↺, …\[:\]\)\)\)$`, 1, "the worst case over all instance types is taken")...)
-			rs = append(rs, core.InstrPresent(w, id, "PROV", sm, `^call \(\*apim/api/resource\.Quantity\)\.Sub\(\(apim/api/resource\.Quantity\)\.DeepCopy\(next\(range\(…\)\)#2\), utils/resources\.MaxResources\(phi\(…\|…\)\)\[next\(range\(\$0\)\)#1\]\)$`, 1, "and subtracted from each remaining resource")...)
+			rs = append(rs, core.InstrPresent(w, id, "PROV", sm, `^call \(\*apim/api/resource\.Quantity\)\.Sub\(\(apim/api/resource\.Quantity\)\.DeepCopy\(next\(range\(…\)\)#2\), utils/resources\.MaxResources\(phi\(…\)\)\[next\(range\(\$0\)\)#1\]\)$`, 1, "and subtracted from each remaining resource")...)
 			rs = append(rs, core.InstrPresent(w, id, "PROV", sm, `^mapupdate makemap<corev1\.ResourceList>\[next\(range\(\$0\)\)#1\] = \(apim/api/resource\.Quantity\)\.DeepCopy\(next\(range\(\$0\)\)#2\)$`, 1, "the result keeps every key of the remaining list")...)
 			return rs
 		}},
+		// what an existing node is charged with: for a node that is not initialized yet, zero quantities reported by the
+		// node are overridden by the launched NodeClaim's capacity (a device plugin that has not registered reports 0)
+		core.Custom{ID: "C03.VIEW1", Kind: "RET", Run: func(w *core.World, id string) []core.Result {
+			const c = "(*state.StateNode).Capacity"
+			rs := core.InstrPresent(w, id, "RET", c, `^mapupdate lo\.Assign\[.*\]\(&local<\[1\]corev1\.ResourceList>\[:\]\)\[next\(range\(\$0\.NodeClaim\.Status\.Capacity\)\)#1\] = next\(range\(\$0\.NodeClaim\.Status\.Capacity\)\)#2$`, 1, "zero quantities are taken from NodeClaim.Status.Capacity")
+			rs = append(rs, core.InstrPresent(w, id, "RET", c, `^store &local<\[1\]corev1\.ResourceList>\[0\] = \$0\.Node\.Status\.Capacity$`, 1, "starting from the node's reported capacity")...)
+			return rs
+		}},
+		POST{ID: "C03.VIEW1b", Fn: "(*state.StateNode).Capacity", FromLit: `+^utils/resources\.IsZero\(lo\.Assign\[.*\]\(&local<\[1\]corev1\.ResourceList>\[:\]\)\[next\(range\(\$0\.NodeClaim\.Status\.Capacity\)\)#1\]\)$`,
+			Must: []string{`^mapupdate lo\.Assign\[.*\]\(&local<\[1\]corev1\.ResourceList>\[:\]\)\[next\(range\(\$0\.NodeClaim\.Status\.Capacity\)\)#1\] = next\(range\(\$0\.NodeClaim\.Status\.Capacity\)\)#2$`}},
 		core.Custom{ID: "C03.CMP1", Kind: "ORD", Run: c03FilterCmp},
 		core.Custom{ID: "C03.SYM3", Kind: "SYM", Run: c03NodeKey},
 
